@@ -55,12 +55,17 @@ def gen_case(rnd, tier: str, i: Any) -> Dict[str, Any]:
     mode = rnd.choice(["identical", "perturbed", "perturbed", "vocab"])
     control, test = {}, {}
     ragged = n_ranks > 1 and n_steps >= 2 and rnd.random() < 0.3      # ranks that recorded different (non-empty) subsets of the steps
+    bracket_names = rnd.sample(["<built-in function len>", "<lambda>", "(anonymous)", "<unknown>", "<built-in method item of Tensor object at 0x7f10>"], 3) \
+        if rnd.random() < 0.3 else []
     for r in range(n_ranks):
         fs, ns = first_step, n_steps
         if ragged and r > 0:
             ns = rnd.randint(1, n_steps)
             fs = first_step + rnd.randint(0, n_steps - ns)
         p = gen_sim.random_params(rnd, tier, rank=r, first_step=fs, n_steps=ns, repeat_names=True)
+        if bracket_names:
+            # names that consist of one bracketed group only: their short name is the empty string
+            p["ops_pool"] = ["aten::mm", "aten::add"] + bracket_names
         tr = gen_sim.gen_trace(rnd, **p)
         control[f"rank{r}.json"] = tr
         if mode == "vocab":
